@@ -3,6 +3,7 @@ package props
 import (
 	"fmt"
 	"math/rand"
+	"strings"
 
 	"verif/internal/mon"
 	"verif/internal/refsem"
@@ -39,6 +40,26 @@ func evalText(e xgen.Expr, r *rand.Rand, node *univ.Node, opt *refsem.Options) (
 	ec := &evalCase{Expr: e, Text: (&xgen.Renderer{R: r}).Render(e), Datum: node, Opt: opt}
 	o, ok, _ := ec.run()
 	return o, ec.Text, ok
+}
+
+// collidingPath finds another resolving path whose "."- or "/"-joined
+// spelling equals that of parts.
+func collidingPath(parts []string, node *univ.Node, opt *refsem.Options) []string {
+	for _, p := range refsem.Paths(node, opt, 4) {
+		if len(p.Path) == len(parts) || len(p.Path) == 0 {
+			same := len(p.Path) == len(parts)
+			for i := 0; same && i < len(parts); i++ {
+				same = p.Path[i] == parts[i]
+			}
+			if same {
+				continue
+			}
+		}
+		if strings.Join(p.Path, ".") == strings.Join(parts, ".") || strings.Join(p.Path, "/") == strings.Join(parts, "/") {
+			return p.Path
+		}
+	}
+	return nil
 }
 
 func andTable(a, b string) string {
@@ -82,6 +103,22 @@ func c03Run(c *mon.Ctx, idx int) {
 			c.Count("skipped_order_dependent_operand")
 			continue
 		}
+		// on the collision datum: B is often A itself re-addressed to a
+		// DIFFERENT path with the same joined spelling (a["b.c"] vs a.b.c),
+		// same operator and literal - anything that identifies clauses or
+		// lookups by a joined path would merge them
+		if node == collisionDatum && r.Intn(2) == 0 {
+			if am, ok := A.(*xgen.Match); ok {
+				if alt := collidingPath(am.Sel.Parts, node, opt); alt != nil {
+					bm := *am
+					if sel, ok := g.selFor(alt); ok {
+						bm.Sel = sel
+						B = &bm
+						c.Count("colliding_twin_operands")
+					}
+				}
+			}
+		}
 		oa, ta, ok1 := evalText(A, r, node, opt)
 		ob, tb, ok2 := evalText(B, r, node, opt)
 		if !ok1 || !ok2 {
@@ -109,6 +146,35 @@ func c03Run(c *mon.Ctx, idx int) {
 			{"demorgan-and-of-nots", &xgen.And{L: &xgen.Not{X: A}, R: &xgen.Not{X: B}}, andTable(notTable(a), notTable(b))},
 			{"and-assoc", &xgen.And{L: &xgen.And{L: A, R: B}, R: A}, andTable(andTable(a, b), a)},
 			{"or-in-and", &xgen.And{L: &xgen.Or{L: A, R: B}, R: B}, andTable(orTable(a, b), b)},
+		}
+		// long same-operator chains: n operands B with A at one position
+		if k == 0 {
+			n := 9 + r.Intn(9)
+			pos := r.Intn(n)
+			for _, isAnd := range []bool{true, false} {
+				var chain xgen.Expr
+				want := ""
+				for i := n - 1; i >= 0; i-- {
+					var opnd xgen.Expr = B
+					o := b
+					if i == pos {
+						opnd, o = A, a
+					}
+					if chain == nil {
+						chain, want = opnd, o
+					} else if isAnd {
+						chain, want = &xgen.And{L: opnd, R: chain}, andTable(o, want)
+					} else {
+						chain, want = &xgen.Or{L: opnd, R: chain}, orTable(o, want)
+					}
+				}
+				name := "or-chain"
+				if isAnd {
+					name = "and-chain"
+				}
+				comps = append(comps, comp{name, chain, want})
+			}
+			c.Count("long_chains")
 		}
 		for _, cp := range comps {
 			c.Evals(1)
@@ -240,7 +306,7 @@ func init() {
 		NumCases:    func(tier string) int { return tierN(tier, 8000, 150000) },
 		Run:         c03Run,
 		Required: func(tier string) []string {
-			l := []string{"quantified_operand", "collision_datum_cases", "cell:not/T", "cell:not/F", "cell:not/E"}
+			l := []string{"quantified_operand", "collision_datum_cases", "colliding_twin_operands", "long_chains", "cell:not/T", "cell:not/F", "cell:not/E"}
 			for _, op := range []string{"and", "or"} {
 				for _, a := range []string{"T", "F", "E"} {
 					for _, b := range []string{"T", "F", "E"} {
